@@ -4,6 +4,7 @@
 #![allow(clippy::all)]
 mod common;
 mod g_algebra;
+pub mod polygen;
 
 use common::*;
 
